@@ -69,7 +69,12 @@ func loadPkg(dir string) *pkg {
 	return p
 }
 
+var surveyMode bool
+
 func fail(f string, a ...any) {
+	if surveyMode {
+		panic(fmt.Sprintf(f, a...))
+	}
 	fmt.Fprintf(os.Stderr, "verifgen: UNSUPPORTED/BROKEN: "+f+"\n", a...)
 	os.Exit(3)
 }
@@ -164,6 +169,22 @@ func constLit(v constant.Value, tt ty, where string) string {
 	mod := new(big.Int).Lsh(big.NewInt(1), uint(tt.w))
 	bi.Mod(bi, mod)
 	return fmt.Sprintf("(%s#%d)", bi.String(), tt.w)
+}
+
+var opaqueBoolCalls bool
+
+func sanitizeFull(s string) string {
+	var b strings.Builder
+	for _, r := range s {
+		if (r >= 'a' && r <= 'z') || (r >= 'A' && r <= 'Z') || (r >= '0' && r <= '9') {
+			b.WriteRune(r)
+		} else if r == '!' {
+			b.WriteString("not")
+		} else if r != ' ' {
+			b.WriteRune('_')
+		}
+	}
+	return strings.Trim(b.String(), "_")
 }
 
 var leanKeywords = map[string]bool{"end": true, "at": true, "from": true, "have": true, "show": true, "then": true, "else": true, "do": true, "in": true, "fun": true, "let": true, "match": true, "with": true, "open": true, "where": true, "by": true, "if": true, "for": true, "local": true, "prefix": true, "instance": true, "class": true, "structure": true, "def": true, "theorem": true, "example": true, "mutual": true, "namespace": true, "section": true, "variable": true, "universe": true, "import": true, "export": true, "private": true, "protected": true, "macro": true, "syntax": true, "notation": true, "infix": true, "deriving": true, "extends": true, "return": true, "unless": true, "try": true, "catch": true, "finally": true, "mut": true, "Type": true, "Prop": true, "Sort": true, "using": true, "calc": true, "suffices": true, "obtain": true, "abbrev": true, "inductive": true, "axiom": true, "opaque": true, "attribute": true, "set_option": true, "nomatch": true, "nofun": true, "forall": true, "exists": true}
@@ -446,6 +467,13 @@ func (t *tr) call(x *ast.CallExpr, tv types.TypeAndValue) (string, ty) {
 			}
 			rt := goTy(tv.Type, t.pos(x))
 			return "(" + ln + " " + strings.Join(args, " ") + ")", rt
+		}
+	}
+	// a call with arguments whose result is a bool (node.Equals(a, nil), d.Contains(n), p.admit(...)): an opaque
+	// boolean named after the whole printed call, so that the decision's shape and its operands stay pinned
+	if t.siteMod && opaqueBoolCalls && len(x.Args) > 0 {
+		if b, ok := tv.Type.Underlying().(*types.Basic); ok && b.Info()&types.IsBoolean != 0 {
+			return t.useFree(sanitizeFull(types.ExprString(x)), ty{0, false}), ty{0, false}
 		}
 	}
 	// method call / unknown call with basic result: free variable in site mode
@@ -831,6 +859,10 @@ func main() {
 	if len(os.Args) < 2 {
 		fail("usage: verifgen <outdir>")
 	}
+	if os.Args[1] == "-survey" {
+		survey(os.Args[2], os.Args[3:])
+		return
+	}
 	out := os.Args[1]
 	os.MkdirAll(out, 0o755)
 	old, _ := filepath.Glob(filepath.Join(out, "*.lean"))
@@ -1099,6 +1131,16 @@ func main() {
 	}, wCalls)
 	s += footer("Wheel")
 	write(out, "Wheel", s)
+
+	// ---- eviction policy: every pure decision and counter update of policy.go
+	autoModule(out, "Policy", ot, [][2]string{
+		{"policy.access", "access"}, {"policy.add", "add"}, {"policy.update", "update"}, {"policy.queueOf", "queueOf"},
+		{"policy.discount", "discount"}, {"policy.makeDead", "makeDead"}, {"policy.setMaximumSize", "setMaximumSize"},
+		{"policy.reorderProbation", "reorderProbation"}, {"policy.evictFromWindow", "evictFromWindow"},
+		{"policy.evictFromMain", "evictFromMain"}, {"policy.admit", "admit"}, {"policy.climb", "climb"},
+		{"policy.determineAdjustment", "determineAdjustment"}, {"policy.demoteFromMainProtected", "demote"},
+		{"policy.increaseWindow", "increaseWindow"}, {"policy.decreaseWindow", "decreaseWindow"}, {"reorder", "reorder"},
+	}, map[string]string{}, "")
 
 	// ---- protocol skeletons
 	s = header("Skeleton")
